@@ -110,6 +110,24 @@ def readonly_setters_case(rng):
     w.emit('dump')
     return w.lines
 
+def many_handles_case(rng, n):
+    """a session that is closed while hundreds of entity handles are alive (each has looked at its dimensions and sources, which opens
+    further HDF5 objects): close() has to release every one of them — straight afterwards another process reads the file"""
+    w = World(rng, names=PLAIN)
+    w.open('ow')
+    b = w.mk('B', None, name='b')
+    src = w.mk('O', b, name='o')
+    arrs = [w.mk('A', b, name='arr%d' % i, extra=[2]) for i in range(n)]
+    for a in arrs:
+        w.emit('adim %s set %s' % (a.slot, lst([S('p')]))); w.emit('link src %s handle %s' % (a.slot, src.slot))
+    for a in arrs:
+        w.emit('dims %s' % a.slot); w.emit('countlink src %s' % a.slot); w.emit('dims %s' % a.slot); w.emit('countlink src %s' % a.slot)
+    w.emit('dump')
+    w.emit('fclose')                       # NOT fdrop: the handles stay alive across the close
+    w.emit('dumpx %s' % rng.choice(['UTC0', 'JST-9']))
+    w.emit('fopen rw auto'); w.emit('dump')
+    return w.lines
+
 def history(rng, tier):
     w = World(rng, names=NAMES if rng.random() < 0.5 else PLAIN)
     w.open('ow')
@@ -180,6 +198,7 @@ def cases(tier, seed, rng):
     from vlib.runner import Case
     n = 50 if tier == 'quick' else 1200
     out = [Case(with_hdump(history(rng, tier), rng), 'gen:tree') for _ in range(n)]
+    out += [Case(many_handles_case(rng, k), 'gen:many-handles-at-close') for k in ((150,) if tier == 'quick' else (70, 150, 300))]
     out += [Case(with_hdump(readonly_setters_case(rng), rng), 'gen:readonly-setters') for _ in range(12 if tier == 'quick' else 300)]
     return out
 
